@@ -122,18 +122,20 @@ def gen_overlap(rng, i):
             else:
                 p_acts, s_acts = g.acts(pn[:1], reads=[shared]), g.acts([shared] + sn[:1], style="s")
         elif rel == "write-same":
-            v = r.randint(1, 3)
-            p_acts, s_acts = [f"s{shared % NPRE}.{v}"] + g.acts(pn[:1]), [f"s{shared % NPRE}.{v}"] + g.acts(sn[:1])
+            v, sh = r.randint(1, 3), shared % NPRE
+            p_acts = [f"s{sh}.{v}"] + g.acts([x for x in pn[:1] if x != sh])
+            s_acts = [f"s{sh}.{v}"] + g.acts([x for x in sn[:1] if x != sh])
         elif rel == "write-diff":
-            p_acts = [f"s{shared % NPRE}.1"] + g.acts(pn[:1])
-            s_acts = [f"s{shared % NPRE}.2"] + g.acts(sn[:1])
+            sh = shared % NPRE
+            p_acts = [f"s{sh}.1"] + g.acts([x for x in pn[:1] if x != sh])
+            s_acts = [f"s{sh}.2"] + g.acts([x for x in sn[:1] if x != sh])
         elif rel == "obstruct":
             x = ox
             if j == 0:
                 # the node exists on both lanes; the parent deletes it, the strand keeps using it
                 p_acts, s_acts = [f"d{x}"], [r.choice([f"s{x}.2", f"d{x}", f"s{x}.3", f"u{x}.2"])]
             else:
-                p_acts, s_acts = g.acts(pn[:1]), g.acts(sn[:1] + [x], style="s")
+                p_acts, s_acts = g.acts([y for y in pn[:1] if y != x]) or ["r0"], g.acts(list(dict.fromkeys(sn[:1] + [x])), style="s")
         elif rel == "idle-parent":
             s_acts = g.acts(r.sample(range(NK), r.randint(1, 3)))
         elif rel == "idle-strand":
@@ -240,6 +242,33 @@ def gen_invalid(rng, i):
     g.steps.append(f"S:{strand}:{r.choice('rp')}")
     g.steps.append(f"S:7:r")
     return g.line(i)
+
+
+ACTS1 = ["s0.1", "s0.2", "c0", "r0", "w0", "u3.2", "d3", "s3.1", "s1.1"]
+
+
+def gen_exhaustive(two_rounds=False):
+    """every (parent action, strand action[, second strand action]) over a two-node universe, both policies;
+    node 3 and attachment 0 exist before the fork"""
+    out = []
+    i = 700000
+    for a in ACTS1:
+        for b in ACTS1:
+            for b2 in (ACTS1 if two_rounds else [None]):
+                for order in ("ps", "sp") if not two_rounds else ("ps",):
+                    for pol in "rp":
+                        g = Gen(None)
+                        g.tick([(0, ["s0.1", "u3.1"])])
+                        g.fork(0, 0)
+                        t = [[(0, [a])], [(1, [b])]]
+                        for x in (t if order == "ps" else t[::-1]):
+                            g.tick(x)
+                        if b2:
+                            g.tick([(1, [b2])])
+                        g.steps += ["R:0", f"P:0:{pol}", f"S:0:{pol}"]
+                        out.append(g.line(i))
+                        i += 1
+    return out
 
 
 GENS = [(gen_overlap, 6), (gen_every_tick, 1), (gen_chain, 2), (gen_invalid, 1)]
@@ -432,6 +461,16 @@ def run(tier, seed, replay=None):
                              "harness c15.rs (abstraction: GraphStore -> slot/value map, WarpOp -> guarded write, "
                              "SettlementPlan -> decision string)"]
     r.proof_phase(THEOREMS)
+    if tier == "thorough" and not replay:
+        import time as _t
+        t1 = _t.time()
+        try:
+            rc, out = vf.sh(["coqchk", "-o", "-silent", "-Q", vf.COQ, "Echo", "Echo.Props.C15"], timeout=1500)
+            r.phase("P1b_coqchk", ok=(rc == 0), seconds=round(_t.time() - t1, 1), tail=out[-300:])
+            if rc:
+                r.is_broken("coqchk", out[-1500:])
+        except Exception as e:
+            r.is_broken("coqchk", repr(e))
     if replay:
         d = json.load(open(replay))
         cases = [d["replay"]["case"]] if "case" in d.get("replay", {}) else []
@@ -439,6 +478,14 @@ def run(tier, seed, replay=None):
         cases = vf.load_corpus(PROP)
         n = 60 if tier == "quick" else 1500
         cases += gen_cases(r.rng, n, start=1000)
+        ex = gen_exhaustive(two_rounds=False)
+        if tier == "quick":
+            cases += r.rng.sample(ex, 24)
+        else:
+            cases += ex + gen_exhaustive(two_rounds=True)
+        r.cov["exhaustive_universe"] = (f"{len(ACTS1)}^2 (parent action, strand action) x 2 orders x 2 policies = {len(ex)} "
+                                        + ("all run, plus " + str(len(ACTS1) ** 3 * 2) + " two-round cases" if tier != "quick"
+                                           else "of which 24 sampled in the quick tier"))
     try:
         bins = vf.cargo_build(["c15"])
         r.phase("P3_build", ok=True)
@@ -461,7 +508,7 @@ def run(tier, seed, replay=None):
             c = f"id=s steps=" + "/".join(cand)
             _, a, b, _ = both("c15shrink", [c], bins)
             return a != b
-        small = vf.shrink_list(steps, still, max_rounds=30) if len(steps) <= 30 else steps
+        small = vf.shrink_list(steps, still, max_rounds=14) if len(steps) <= 16 else steps
         c = "id=s steps=" + "/".join(small)
         _, a, b, o = both("c15shrink", [c], bins)
         k, x, y = first_diff(a[0], b[0])
@@ -469,7 +516,7 @@ def run(tier, seed, replay=None):
         if o[0] != "ok":
             r.violation(sig_of(o[0]), "oracle fails on shrunk disagreement", {"case": c, "oracle": o[0]})
     if (r.broken and not r.violations) and not replay:
-        extra = gen_cases(r.rng, 600 if tier == "quick" else 3000, start=500000)
+        extra = gen_cases(r.rng, 300 if tier == "quick" else 3000, start=500000)
         path = vf.write_cases("c15search", extra)
         rc, out = vf.run_bin(bins["c15"], path, timeout=1500)
         for c, l in zip(extra, [l for l in out.splitlines() if l.startswith("id=")]):
